@@ -53,7 +53,7 @@ func init() {
 
 func runC20(c *Ctx, r *Report) {
 	r.Rule("C20/locked", "every access to Queue.queue / Queue.depth holds Queue.lock (write lock for writes)", 15)
-	r.Rule("C20/token", "mailbox is 1-slot and primed once; every receive from it is followed on all paths by exactly one send, with no lock acquisition or other channel operation in between", 6)
+	r.Rule("C20/token", "mailbox is 1-slot and primed once; every receive from it is followed on all paths by exactly one send, with no lock acquisition or other channel operation in between", 3)
 	r.Rule("C20/republish", "every method that changes the list also stores depth and then sends that depth to the mailbox on every path to its return", 4)
 	r.Rule("C20/non-blocking-empty", "Dequeue/DequeueAll return nil on zero depth before locking; the list is only indexed on the non-zero edge", 2)
 	r.Rule("C20/roles", "Enqueue is called only by the channel read loop; Dequeue/DequeueAll only by Channel.Read/ReadAll; Requeue only by Channel.Open", 4)
@@ -75,11 +75,22 @@ func runC20(c *Ctx, r *Report) {
 	lockKey := "util.Queue.lock"
 	var methods []*ssa.Function
 	roots := map[*ssa.Function]bool{}
+	calledInLib := map[*ssa.Function]bool{}
+	for _, fn := range c.LibFns {
+		for _, ci := range callInstrs(fn) {
+			if sc := ci.Common().StaticCallee(); sc != nil {
+				calledInLib[sc] = true
+			}
+		}
+	}
 	for i := 0; i < qT.NumMethods(); i++ {
 		fn := c.Prog.FuncValue(qT.Method(i))
 		if fn != nil {
 			methods = append(methods, fn)
-			roots[fn] = true
+			// an unexported helper that is only ever called from other methods inherits the locks its callers hold
+			if qT.Method(i).Exported() || !calledInLib[fn] {
+				roots[fn] = true
+			}
 		}
 	}
 	if nq := c.LookupFunc("util", "", "NewQueue"); nq != nil {
@@ -211,6 +222,18 @@ func runC20(c *Ctx, r *Report) {
 				}
 			}
 		}
+		// ... or a call of a helper method that sends the current depth to the mailbox on all of its paths
+		for _, ci := range callInstrs(fn) {
+			sc := ci.Common().StaticCallee()
+			if sc == nil || sc == fn || !publishesDepth(c, sc, fDepth, fChan) {
+				continue
+			}
+			for _, ds := range dStores {
+				if dominatesInstr(ds, ci) {
+					good[ci] = true
+				}
+			}
+		}
 		bad := ""
 		for _, qs := range qStores {
 			rr := reachFrom(fn, qs, func(in ssa.Instruction) bool { return good[in] }, nil)
@@ -280,6 +303,36 @@ func runC20(c *Ctx, r *Report) {
 
 	// ---- fifo-shape
 	checkFifoShape(c, r, fQueue, fDepth)
+}
+
+// publishesDepth: every path of fn from entry to return sends a load of Queue.depth (taken after entry, no store of
+// depth in fn) to the mailbox.
+func publishesDepth(c *Ctx, fn *ssa.Function, fDepth, fChan *types.Var) bool {
+	if fn.Blocks == nil || fn.Signature.Recv() == nil {
+		return false
+	}
+	writes := false
+	for _, a := range fieldAccesses(fn) {
+		if a.Write && a.Field == fDepth {
+			writes = true
+		}
+	}
+	if writes {
+		return false
+	}
+	isPub := func(in ssa.Instruction) bool {
+		snd, ok := in.(*ssa.Send)
+		if !ok {
+			return false
+		}
+		if f, _, _ := chanOrigin(snd.Chan); f != fChan {
+			return false
+		}
+		f, _, ok := fieldLoad(snd.X)
+		return ok && f == fDepth
+	}
+	ret, _ := mustCallBeforeReturn(c, fn, isPub)
+	return ret == nil
 }
 
 // tokenDiscipline checks the receive/send pairing after a receive from the mailbox.
